@@ -72,7 +72,7 @@ func c09Routes(proto string) []routeSpec {
 	return []routeSpec{
 		{Key: "pp", Cluster: "cl-$P-lim", Extra: jmap{"timeout": "300ms"}},
 		{Key: "dead", Cluster: "cl-$P-dead", Extra: jmap{"timeout": "300ms"}},
-		{Key: "hole", Cluster: "cl-$P-hole", Extra: jmap{"timeout": "600ms"}},
+		{Key: "hole", Cluster: "cl-$P-hole", Extra: jmap{"timeout": "350ms"}},
 		{Key: "free", Cluster: "cl-$P", Extra: jmap{"timeout": "300ms"}},
 		{Key: "rq", Cluster: "cl-$P-one", Extra: jmap{"timeout": "300ms"}},
 		// capacity tests hold requests for 2.5 s
@@ -516,7 +516,7 @@ func c09Steered(c *lab.Ctx, e *engine, proto string, rng *lab.Rand, doOp func(cl
 		c.Eval(1)
 		c.Distinct(proto + "|steered|" + strings.Join(ops, ">"))
 	}
-	for rep := 0; rep < c.Pick(2, 6); rep++ {
+	for rep := 0; rep < c.Pick(1, 6); rep++ {
 		for _, op := range []string{"rst", "close", "half", "stall", "d700:ok", "s503", "dead", "hole"} {
 			run([]string{op, "ok", "ok"})
 			run([]string{"ok", op, "ok", op, "ok"})
